@@ -24,6 +24,7 @@ type SpecEnv struct {
 	results []Val
 	inOld  bool
 	loopPre *State // state at entry of the innermost loop (for loopentry(...))
+	oldNames map[string]Val // names that denote a different value inside old(...)
 }
 
 type specErr struct{ msg string }
@@ -77,6 +78,15 @@ func (env *SpecEnv) eval(e SExpr) Val {
 		n := *env
 		n.st = env.old
 		n.inOld = true
+		if len(env.oldNames) > 0 {
+			n.names = map[string]Val{}
+			for k, v := range env.names {
+				n.names[k] = v
+			}
+			for k, v := range env.oldNames {
+				n.names[k] = v
+			}
+		}
 		return n.eval(x.X)
 	case *SUnary:
 		v := env.eval(x.X)
@@ -281,7 +291,7 @@ func (env *SpecEnv) binary(x *SBinary) Val {
 	case "&", "|", "^", "&^":
 		u.declareBitops()
 		name := map[string]string{"&": "bitand", "|": "bitor", "^": "bitxor", "&^": "bitandnot"}[x.Op]
-		return Val{T: app(name, a.T, b.T), Ty: a.Ty, So: "Int"}
+		return Val{T: app(name, pow2Lit(a.T), pow2Lit(b.T)), Ty: a.Ty, So: "Int"}
 	}
 	env.fail("operator %s", x.Op)
 	return Val{}
@@ -572,6 +582,18 @@ func (env *SpecEnv) call(x *SCall) Val {
 		case "zero":
 			ty, _ := u.resolveType(env.home, x.Args[0].(*SType).T)
 			return u.zero(ty)
+		case "mk":
+			ty, so := u.resolveType(env.home, x.Args[0].(*SType).T)
+			st, ok := ty.Underlying().(*types.Struct)
+			if !ok || st.NumFields() != len(x.Args)-1 {
+				env.fail("mk(%s, ...): needs one value per field", x.Args[0].String())
+			}
+			var fs []string
+			for i, a := range x.Args[1:] {
+				v := u.convert(env.eval(a), st.Field(i).Type())
+				fs = append(fs, v.T)
+			}
+			return Val{T: app("mk_"+so, fs...), Ty: ty, So: so}
 		case "loopentry":
 			if env.loopPre == nil {
 				env.fail("loopentry() outside a loop clause")
